@@ -406,6 +406,9 @@ def add(node: ir.Node, op, state: OptimizerState) -> ReturnValue:
     if isinstance(dim0, int) and isinstance(dim1, int):
         result_dim_value: int | ir.SymbolicDim = dim0 + dim1
     else:
+        if (isinstance(dim0, int) and dim0 < 0) or (isinstance(dim1, int) and dim1 < 0):
+            # Symbolic dims are assumed non-negative (see `abs`): N + (-5) may be negative.
+            return None
         result_dim_value = ir.SymbolicDim(f"{dim0}+{dim1}")
     output = _get_output(node, 0)
     if output is not None:
